@@ -7,11 +7,15 @@
 //!   3 m <name> ty        typed read   prop::<T>(name)            on module m (mod #modules)
 //!   4 m <name> ty val    typed write  prop::<T>(name)?.set(val)  on module m
 //!   5 m <name>           raw read     prop_raw(name).as_value()  on module m
+//!   6 <key> val          late include: a further configuration  "key": val  is included when all nodes
+//!                        exist, in script order between the typed accesses (3/4/5/6 run in order)
 //! ty (mod 4): 0 u64, 1 i64, 2 String (decimal digits), 3 bool.
 //! A script is rejected (`7`) unless every string consists of printable ASCII / two-byte
 //! UTF-8 sequences (lead C3..DF), module paths have non-empty segments and are distinct.
 //!
-//! Output: `100 <cfg> <dump>*  <typed>*  200 <dump>* <typed>*` where 100 = des_net_utils::props
+//! Output: `100 <cfg> <dump>* <typed>* <dump12>*  200 <dump>* <typed>* <dump12>*` (<dump12> = the final
+//! state of every module's properties, like <dump> with tag 12; a slot that exists but holds nothing
+//! is listed with value `6`) where 100 = des_net_utils::props
 //! alone (YAML text -> from_str -> Cfg::new -> capture_for_into(path)), 200 = through des
 //! (Sim::include_cfg issued after `inc_at` of the modules have been created with sim.node; missing
 //! ancestors are created on the fly).  <cfg> = 0 (YAML accepted) | 5 (rejected);
@@ -37,6 +41,7 @@ enum Op {
     Read(u64, String, u64),
     Write(u64, String, u64, u64),
     Raw(u64, String),
+    Include(String, u64),
 }
 
 fn valid_text(b: &[u64]) -> bool {
@@ -107,9 +112,9 @@ fn enc_opt_value(out: &mut Vec<u64>, v: Option<Value>) {
     }
 }
 
-fn dump(out: &mut Vec<u64>, mut keys: Vec<String>, mut raw: impl FnMut(&str) -> RawProp) {
+fn dump(out: &mut Vec<u64>, tag: u64, mut keys: Vec<String>, mut raw: impl FnMut(&str) -> RawProp) {
     keys.sort();
-    out.extend([10, keys.len() as u64]);
+    out.extend([tag, keys.len() as u64]);
     for k in keys {
         lp(out, &k);
         enc_opt_value(out, raw(&k).as_value());
@@ -152,25 +157,45 @@ fn write_t<T: PropType>(out: &mut Vec<u64>, r: Result<Prop<T>, std::io::Error>, 
 trait Access {
     fn typed<T: PropType>(&mut self, m: usize, name: &str) -> Result<Prop<T>, std::io::Error>;
     fn raw(&mut self, m: usize, name: &str) -> RawProp;
+    fn include(&mut self, yaml: &str);
+    fn keys(&mut self, m: usize) -> Vec<String>;
 }
 
-struct Direct(Vec<Props>);
+struct Direct(Vec<(Vec<String>, Props)>);
 impl Access for Direct {
     fn typed<T: PropType>(&mut self, m: usize, name: &str) -> Result<Prop<T>, std::io::Error> {
-        self.0[m].get::<T>(name)
+        self.0[m].1.get::<T>(name)
     }
     fn raw(&mut self, m: usize, name: &str) -> RawProp {
-        self.0[m].get_raw(name)
+        self.0[m].1.get_raw(name)
+    }
+    fn include(&mut self, yaml: &str) {
+        if let Ok(v) = serde_yml::from_str::<Value>(yaml) {
+            let cfg = Cfg::new(v);
+            for (parts, props) in self.0.iter_mut() {
+                let parts: Vec<&str> = parts.iter().map(String::as_str).collect();
+                cfg.capture_for(&parts, props);
+            }
+        }
+    }
+    fn keys(&mut self, m: usize) -> Vec<String> {
+        self.0[m].1.keys()
     }
 }
 
-struct Through(Vec<ModuleRef>);
+struct Through(des::net::SimBuilder<()>, Vec<ModuleRef>);
 impl Access for Through {
     fn typed<T: PropType>(&mut self, m: usize, name: &str) -> Result<Prop<T>, std::io::Error> {
-        self.0[m].prop::<T>(name)
+        self.1[m].prop::<T>(name)
     }
     fn raw(&mut self, m: usize, name: &str) -> RawProp {
-        self.0[m].prop_raw(name)
+        self.1[m].prop_raw(name)
+    }
+    fn include(&mut self, yaml: &str) {
+        self.0.include_cfg(yaml);
+    }
+    fn keys(&mut self, m: usize) -> Vec<String> {
+        self.1[m].props_keys()
     }
 }
 
@@ -205,6 +230,7 @@ fn run_ops(out: &mut Vec<u64>, acc: &mut impl Access, nmods: usize, ops: &[Op]) 
                     o.push(5);
                     enc_opt_value(&mut o, acc.raw(m, name).as_value());
                 }
+                Op::Include(k, v) => acc.include(&yaml_text(&[(k.clone(), *v)])),
             }
             o
         }));
@@ -212,6 +238,10 @@ fn run_ops(out: &mut Vec<u64>, acc: &mut impl Access, nmods: usize, ops: &[Op]) 
             Ok(o) => out.extend(o),
             Err(_) => out.extend([9, 3]),
         }
+    }
+    for m in 0..nmods {
+        let keys = acc.keys(m);
+        dump(out, 12, keys, |k| acc.raw(m, k));
     }
 }
 
@@ -271,6 +301,12 @@ fn run_line(nums: &[u64]) -> Vec<u64> {
                 let n = text(&mut c, &mut valid);
                 ops.push(Op::Raw(m, n));
             }
+            Some(6) => {
+                c.next();
+                let k = text(&mut c, &mut valid);
+                let v = c.next();
+                ops.push(Op::Include(k, v));
+            }
             _ => break,
         }
     }
@@ -285,25 +321,25 @@ fn run_line(nums: &[u64]) -> Vec<u64> {
     let r = catch_unwind(AssertUnwindSafe(|| {
         let mut o = Vec::new();
         let mut all = Vec::new();
-        match serde_yml::from_str::<Value>(&yaml) {
+        let cfg = match serde_yml::from_str::<Value>(&yaml) {
             Ok(v) => {
                 o.push(0);
-                let cfg = Cfg::new(v);
-                for p in &paths {
-                    let parts: Vec<&str> = p.split('.').collect();
-                    let mut props = cfg.capture_for_into(&parts);
-                    let keys = props.keys();
-                    dump(&mut o, keys, |k| props.get_raw(k));
-                    all.push(props);
-                }
+                Some(Cfg::new(v))
             }
             Err(_) => {
                 o.push(5);
-                for _ in &paths {
-                    o.extend([10, 0]);
-                    all.push(Props::default());
-                }
+                None
             }
+        };
+        for p in &paths {
+            let parts: Vec<&str> = p.split('.').collect();
+            let mut props = match &cfg {
+                Some(cfg) => cfg.capture_for_into(&parts),
+                None => Props::default(),
+            };
+            let keys = props.keys();
+            dump(&mut o, 10, keys, |k| props.get_raw(k));
+            all.push((parts.iter().map(|s| s.to_string()).collect(), props));
         }
         (o, all)
     }));
@@ -342,10 +378,10 @@ fn run_line(nums: &[u64]) -> Vec<u64> {
         let mut refs = Vec::new();
         for p in &paths {
             let m = sim.get(&ObjectPath::from(p.as_str())).expect("created above");
-            dump(&mut o, m.props_keys(), |k| m.prop_raw(k));
+            dump(&mut o, 10, m.props_keys(), |k| m.prop_raw(k));
             refs.push(m);
         }
-        let mut acc = Through(refs);
+        let mut acc = Through(sim, refs);
         run_ops(&mut o, &mut acc, paths.len(), &ops);
         o
     }));
